@@ -1547,6 +1547,12 @@ func (e *Entry) dup() *Entry {
 		}
 	}
 
+	// The list attributes can be changed per instance (by a deviation).
+	if e.ListAttr != nil {
+		la := *e.ListAttr
+		ne.ListAttr = &la
+	}
+
 	// The input and output of an rpc or action are part of the subtree.
 	if e.RPC != nil {
 		ne.RPC = &RPCEntry{}
